@@ -4,9 +4,9 @@
 cd /verif
 mkdir -p .cache/gen
 python3 -c "import sys,shutil; sys.path.insert(0,\"/verif/tools\"); import check; shutil.copy(check.expand(\"std\")[0], \"/verif/.cache/exp_std.rs\")"
-python3 tools/gen.py .cache/exp_std.rs .cache/gen/psc.rs .cache/gen/psc.meta.json $(ls verus/*.rs.in verus/*.py | sort -t/ -k2) --flag std ${FAMILY:+--family $FAMILY} || exit $?
+python3 tools/gen.py .cache/exp_std.rs .cache/gen/psc.rs .cache/gen/psc.meta.json $(ls verus/*.rs.in verus/*.py | sort -t/ -k2) --flag std ${FLAGS:+--flag $FLAGS} ${FAMILY:+--family $FAMILY} || exit $?
 cd .cache/gen
-verus psc.rs --output-json --time-expanded --rlimit 40 "$@" > psc.out.json 2> psc.err.txt; rc=$?
+timeout ${TMO:-900} verus psc.rs --output-json --time-expanded --rlimit 40 "$@" > psc.out.json 2> psc.err.txt; rc=$?
 grep -E "^(error|warning: unused)" -A12 psc.err.txt | head -${LINES_MAX:-120}
 python3 - <<'PY'
 import json
